@@ -10,7 +10,7 @@
 namespace {
 using namespace vf;
 
-enum OpKind { ADD, DEL, REPLACE, ORDER, DELTYPE, DELUNREF_HDR, DELUNREF_NIF };
+enum OpKind { ADD, DEL, REPLACE, ORDER, DELTYPE, DELUNREF_HDR, DELUNREF_NIF, DELREF };
 struct OpSpec { OpKind k; uint32_t a = 0, b = 0; std::string name; bool flag = false; };
 
 std::string opStr(const OpSpec& o) {
@@ -22,6 +22,7 @@ std::string opStr(const OpSpec& o) {
 		case DELTYPE: return "DeleteBlockByType(" + o.name + (o.flag ? ",orphanedOnly)" : ")");
 		case DELUNREF_HDR: return fmt("hdr.DeleteUnreferencedBlocks<%s>(root %u)", o.flag ? "NiNode" : "NiObject", o.a);
 		case DELUNREF_NIF: return fmt("nif.DeleteUnreferencedBlocks<%s>()", o.flag ? "NiExtraData" : "NiObject");
+		case DELREF: return fmt("DeleteBlock(reference slot %u of block %u)", o.b, o.a);
 	}
 	return "?";
 }
@@ -175,6 +176,24 @@ bool applyOp(NifFile& nif, Model& m, const OpSpec& op) {
 			hdr.DeleteBlock(op.a);
 			m.del(op.a);
 			return true;
+		case DELREF: {
+			// the overload that takes a reference object, called with a reference that lives inside a block of the model (the way
+			// DeleteShape / DeleteShader / DeleteSkinning call it): same effect as deleting the designated index
+			if (op.a >= n) return false;
+			std::set<NiRef*> rs;
+			m.order[op.a]->GetChildRefs(rs);
+			m.order[op.a]->GetPtrs(rs);
+			std::vector<NiRef*> live;
+			for (auto r : rs) if (r->index < n) live.push_back(r);
+			if (live.empty()) return false;
+			std::sort(live.begin(), live.end(), [](NiRef* x, NiRef* y) { return x->index != y->index ? x->index < y->index : x < y; });
+			NiRef* r = live[op.b % live.size()];
+			uint32_t target = r->index;
+			if (hdr.GetBlock<NiGeometryData>(target)) return false;   // recorded finding about the cached geometry pointer, exercised by the witness
+			hdr.DeleteBlock(*r);
+			m.del(target);
+			return true;
+		}
 		case REPLACE: {
 			if (op.a >= n) return false;
 			auto b = makeBlock(op.b, op.a + 1000, n);
@@ -268,7 +287,7 @@ bool step(NifFile& nif, const OpSpec& op, const std::string& hist) {
 	std::string site;
 	std::string err = compareState(nif, m, site);
 	if (!err.empty()) {
-		const char* kn[] = {"AddBlock", "DeleteBlock", "ReplaceBlock", "SetBlockOrder", "DeleteBlockByType", "DeleteUnreferencedBlocks", "NifFile::DeleteUnreferencedBlocks"};
+		const char* kn[] = {"AddBlock", "DeleteBlock", "ReplaceBlock", "SetBlockOrder", "DeleteBlockByType", "DeleteUnreferencedBlocks", "NifFile::DeleteUnreferencedBlocks", "DeleteBlock(NiRef)"};
 		R_viol("edit-vs-model", std::string(kn[op.k]) + "/" + site, hist + " -> " + opStr(op) + ": " + err);
 		return false;
 	}
@@ -355,6 +374,7 @@ std::vector<OpSpec> alphabet(NifFile& nif) {
 	auto& hdr = nif.GetHeader();
 	uint32_t n = hdr.GetNumBlocks();
 	for (uint32_t i = 0; i < n; i++) ops.push_back({DEL, i});
+	for (uint32_t i = 0; i < n; i++) ops.push_back({DELREF, i, i % 2});
 	for (uint32_t k = 0; k < 3; k++) ops.push_back({ADD, k, 7 + k});
 	for (uint32_t i = 0; i < n; i += (n > 3 ? 2 : 1)) ops.push_back({REPLACE, i, i % 3});
 	for (uint32_t k = 0; k < 3; k++) ops.push_back({ORDER, k, 1});
@@ -470,7 +490,8 @@ void run(size_t idx) {
 		uint32_t nb = hdr.GetNumBlocks();
 		OpSpec op;
 		uint32_t c = rng.below(20);
-		if (c < 5) op = {DEL, nb ? rng.below(nb) : 0};
+		if (c < 3) op = {DEL, nb ? rng.below(nb) : 0};
+		else if (c < 5) op = {DELREF, nb ? rng.below(nb) : 0, rng.below(4)};
 		else if (c < 9) op = {ADD, rng.below(4), rng.below(1000)};
 		else if (c < 12) op = {REPLACE, nb ? rng.below(nb) : 0, rng.below(4)};
 		else if (c < 15) op = {ORDER, rng.below(4), rng.below(1000)};
